@@ -1217,11 +1217,15 @@ class DestHandler:
             if self._checksum_verify():
                 self._file_transfer_complete_transition()
                 return
-            if self._params.current_check_count + 1 >= self._params.remote_cfg.check_limit:
+            if self._params.current_check_count + 1 >= self._params.remote_cfg.check_limit and (
                 self._declare_fault(ConditionCode.CHECK_LIMIT_REACHED)
-            else:
-                self._params.current_check_count += 1
-                self._params.check_timer.reset()
+                != FaultHandlerCode.IGNORE_ERROR
+            ):
+                return
+            # The limit is not reached, or the fault is ignored: keep counting and wait for another
+            # interval, so an ignored fault is not declared again by every following call.
+            self._params.current_check_count += 1
+            self._params.check_timer.reset()
 
     def _declare_fault(self, cond: ConditionCode) -> FaultHandlerCode:
         fh = self.cfg.default_fault_handlers.get_fault_handler(cond)
